@@ -1120,7 +1120,9 @@ func main() {
 
 	// translator
 	tbl := translate(run.Repo)
-	tbl.WriteCoq("/verif/coq/gen/C34_slots.v")
+	if os.Getenv("C34_NO_GEN") == "" {
+		tbl.WriteCoq("/verif/coq/gen/C34_slots.v")
+	}
 	checkCoverage(tbl, st)
 	st.Extra["slots"] = len(tbl.Slots)
 	st.Extra["tx_types"] = len(tbl.TxTypes)
